@@ -104,6 +104,40 @@ pub const SEPARATORS: [&str; 28] = [
 ];
 pub const ASCII_SEPARATORS: usize = 8;
 
+/// The 25 White_Space characters, one by one (ASCII first).
+pub const WS_CHARS: [char; 25] = [
+    ' ', '\t', '\n', '\u{000B}', '\u{000C}', '\r', '\u{0085}', '\u{00A0}', '\u{1680}', '\u{2000}', '\u{2001}', '\u{2002}', '\u{2003}', '\u{2004}', '\u{2005}', '\u{2006}', '\u{2007}', '\u{2008}', '\u{2009}', '\u{200A}',
+    '\u{2028}', '\u{2029}', '\u{202F}', '\u{205F}', '\u{3000}',
+];
+pub const SEPARATOR_RUN_STYLES: usize = 9;
+
+/// The whitespace put in gap `pos` of a text for separator code `v`: codes below 28 are the
+/// entries of `SEPARATORS`; higher codes are *runs* of two to five whitespace characters in which
+/// every White_Space character occurs in every position — first, last, in the middle, next to
+/// ASCII whitespace, next to itself. Code 28 + 25*style + a: `a` picks one character, the gap
+/// position picks its partner, `style` the arrangement.
+pub fn separator(v: u8, pos: usize) -> String {
+    let v = v as usize;
+    if v < SEPARATORS.len() {
+        return SEPARATORS[v].to_string();
+    }
+    let a = WS_CHARS[(v - SEPARATORS.len()) % 25];
+    let b = WS_CHARS[pos % 25];
+    let c = WS_CHARS[(pos * 7 + 3) % 25];
+    let run: Vec<char> = match ((v - SEPARATORS.len()) / 25) % SEPARATOR_RUN_STYLES {
+        0 => vec![a, b],
+        1 => vec![b, a],
+        2 => vec![a, a],
+        3 => vec![' ', a],
+        4 => vec![a, ' '],
+        5 => vec!['\n', a, '\n'],
+        6 => vec![a, b, c],
+        7 => vec![' ', ' ', a, b, ' '],
+        _ => vec!['\r', '\n', '\r', '\n', a],
+    };
+    run.into_iter().collect()
+}
+
 #[cfg(test)]
 mod tests {
     use super::*;
